@@ -48,7 +48,9 @@ type APICase struct {
 	Backdate int64
 	// renew / rekey: the presented host certificate: validAfter = now − Age, validBefore = validAfter + Dur (seconds)
 	Age, Dur int64
-	NoTLS    bool // no identity certificate on the connection
+	// absolute bounds instead (0 = use Age/Dur): edges of the validity gates of SSHPOP.authorizeToken / DefaultAuthorizeSSHRenew
+	AbsVA, AbsVB uint64
+	NoTLS        bool // no identity certificate on the connection
 	// sign: requested validity of the SSH certificate
 	UVA, UVB TD
 	CType    uint32
@@ -99,7 +101,7 @@ func (k *APICase) runAll() (out [][2]string) {
 	}
 	e := getEnv()
 	rc := k.base()
-	a, err := rc.authority()
+	a, err := rc.authority(time.Now())
 	if err != nil {
 		return nil
 	}
@@ -188,6 +190,12 @@ func (k *APICase) runAll() (out [][2]string) {
 	}
 	va := uint64(base.Unix() - k.Age)
 	vb := va + uint64(k.Dur)
+	if k.AbsVA != 0 {
+		va = k.AbsVA
+	}
+	if k.AbsVB != 0 {
+		vb = k.AbsVB
+	}
 	old := &ssh.Certificate{Key: hostPub, Serial: uint64(time.Now().UnixNano()), CertType: ssh.HostCert, KeyId: "host.verif.test",
 		ValidPrincipals: []string{"host.verif.test"}, ValidAfter: va, ValidBefore: vb, Nonce: []byte{1, 2, 3}}
 	if err := old.SignCert(rand.Reader, caSigner); err != nil {
@@ -209,6 +217,11 @@ func (k *APICase) runAll() (out [][2]string) {
 	t1 := time.Now()
 	line := fmt.Sprintf("sshapi op=%s unow=%d anow=%s pnow=%s g=%s p=%s bd=%d ova=%d ovb=%d ct=2 tls=%s", k.Kind, t0.Unix(), timeS(t0), timeS(base),
 		g, k.P, k.Backdate, va, vb, c.B(identity != nil))
+	near := func(x uint64) bool { d := int64(x) - t0.Unix(); return d >= -2 && d <= 2 }
+	if t1.Unix() != t0.Unix() && (near(va) || near(vb)) {
+		// the gates compare with the wall clock in whole seconds and it ticked during the request
+		return append(out, [2]string{"skip reason=clock-tick", "skip"})
+	}
 	if crashed {
 		return append(out, [2]string{line, "crash"})
 	}
@@ -375,6 +388,20 @@ func genAPI(r *c.Rng) *Case {
 	if r.Chance(1, 12) {
 		k.Dur = c.Pick(r, []int64{9223372036, 9223372037, 9223372100, 18446744074 + 3600})
 	}
+	// the validity gates: not yet valid (by 1 s … 1 h), expiring now, expired, "forever", beyond 2^63
+	switch r.Intn(14) {
+	case 0:
+		k.Age = c.Pick(r, []int64{-1, -2, -5, -60, -3600, 0})
+	case 1:
+		k.Dur = k.Age + c.Pick(r, []int64{0, 1, 2, -1, -60, 3})
+		if k.Dur <= 0 {
+			k.Dur = 1
+		}
+	case 2:
+		k.AbsVB = c.Pick(r, []uint64{1<<64 - 1, 1<<64 - 2, 1 << 63, 1<<63 - 1})
+	case 3:
+		k.AbsVA = c.Pick(r, []uint64{1 << 63, 1<<63 - 1, 1<<64 - 1, 1})
+	}
 	return &Case{API: k}
 }
 
@@ -384,6 +411,12 @@ func cornerAPI() []*Case {
 		{API: &APICase{Kind: "rekey", Backdate: min, Age: 10 * 3600, Dur: 16 * 3600}},
 		{API: &APICase{Kind: "rekey", Backdate: min, Age: 20 * 86400, Dur: 30 * 86400}},
 		{API: &APICase{Kind: "renew", Backdate: min, Age: 20 * 86400, Dur: 30 * 86400, NoTLS: true}},
+		{API: &APICase{Kind: "rekey", Backdate: min, Age: 3600, Dur: 16 * 3600, AbsVB: 1<<64 - 1}},
+		{API: &APICase{Kind: "renew", Backdate: min, Age: 3600, Dur: 16 * 3600, AbsVB: 1<<64 - 1}},
+		{API: &APICase{Kind: "rekey", Backdate: min, Age: -5, Dur: 16 * 3600}},
+		{API: &APICase{Kind: "rekey", Backdate: min, Age: 3600, Dur: 3600}},
+		{API: &APICase{Kind: "renew", Backdate: min, Age: 3600, Dur: 3601}},
+		{API: &APICase{Kind: "rekey", Backdate: min, Age: 3600, AbsVB: 1 << 63}},
 		{API: &APICase{Kind: "sign", Backdate: min, CType: 1}},
 		{API: &APICase{Kind: "sign", Backdate: min, CType: 2, UVB: TD{Kind: 2, D: 2 * hr}}},
 		// migration: only the maximum overridden (authority default 1 h), only the default, everything
